@@ -146,4 +146,78 @@ class OnEnvChanged(Contract):
         X.prove('raises.nothing', z3.BoolVal(False))
 
 
-CONTRACTS = [Copy(), OnEnvChanged()]
+class SetItem(Contract):
+    """BaseRequest.__setitem__: every change of the environ made through the request object is announced (env_changed with the key
+    and the new value), so that the cached views computed from the key are dropped (_on_env_changed) - also for a key that was not
+    there before (a view may have been computed and cached from its ABSENCE, e.g. an empty query); storing the value a key already
+    has is a no-op; a read-only request refuses with KeyError and changes nothing."""
+    props = ('C18', 'C10')
+    file = 'ombott/request_pkg/request.py'
+    qualname = 'BaseRequest.__setitem__'
+    expected_labels = ('setitem.every_change_is_announced_once_after_the_store', 'setitem.same_value_is_a_no_op',
+                       'setitem.read_only_refuses_and_changes_nothing')
+
+    def pre(self, X):
+        self.readonly = X.choose(2, 'read-only?') == 1
+        self.present = X.choose(2, 'key present?') == 1
+        self.key = X.fresh_str('key')
+        self.value = VOpaque(X.fresh(PyObj, 'value'), 'value')
+        self.old = VOpaque(X.fresh(PyObj, 'old_value'), 'value')
+        self.events = []
+        c = self
+
+        def env_get(X, args, kwargs):
+            k = z3.simplify(args[0].t) if isinstance(args[0], VStr) else None
+            if k is not None and z3.is_string_value(k) and k.as_string() == 'ombott.request.readonly':
+                return VBool(c.readonly)
+            raise Unsupported('_env_get of another key')
+
+        def emit(X, args, kwargs):
+            c.events.append(('emit', args[1:], dict(kwargs)))
+            return NONE
+        self.env = VObj('Environ', {})
+        self.stubs = {}
+        self.me = VObj('Request', {'environ': self.env, '_env_get': VFunc(env_get, '_env_get'), 'emit': VFunc(lambda X, a, k: emit(X, [None] + list(a), k), 'emit')})
+        return {'self': self.me, 'key': self.key, 'value': self.value}
+
+    def contains_hook(self, X, container, item):
+        if container is self.env:
+            return z3.BoolVal(self.present)
+        return None
+
+    def getitem_hook(self, X, obj, key):
+        if obj is self.env:
+            if not self.present:
+                X.raise_(KeyError, 'key')
+            return self.old
+        return None
+
+    def setitem_hook(self, X, obj, key, val):
+        if obj is self.env:
+            self.events.append(('store', key, val))
+            return True
+        return False
+
+    def post(self, X, ret):
+        stores = [e for e in self.events if e[0] == 'store']
+        emits = [e for e in self.events if e[0] == 'emit']
+        if self.readonly:
+            X.prove('setitem.read_only_refuses_and_changes_nothing', z3.BoolVal(False))
+            return
+        same = z3.And(z3.BoolVal(self.present), self.old.t == self.value.t)
+        if not stores:
+            X.prove('setitem.same_value_is_a_no_op', z3.And(same, z3.BoolVal(not emits)))
+            return
+        ok_store = len(stores) == 1 and stores[0][1] is self.key and stores[0][2] is self.value
+        ok_emit = (len(emits) == 1 and self.events.index(emits[0]) > self.events.index(stores[0])
+                   and len(emits[0][1]) == 3 and isinstance(emits[0][1][0], VStr)
+                   and z3.is_string_value(z3.simplify(emits[0][1][0].t)) and z3.simplify(emits[0][1][0].t).as_string() == 'env_changed'
+                   and emits[0][1][1] is self.key and emits[0][1][2] is self.value)
+        X.prove('setitem.every_change_is_announced_once_after_the_store', z3.BoolVal(bool(ok_store and ok_emit)))
+
+    def post_raise(self, X, exc):
+        X.prove('setitem.read_only_refuses_and_changes_nothing',
+                z3.BoolVal(self.readonly and exc.pyclass is KeyError and not self.events))
+
+
+CONTRACTS = [Copy(), OnEnvChanged(), SetItem()]
